@@ -55,3 +55,32 @@ Example wf_nonvacuous :
   wfb 3 st (root [9]) = true /\ wfb 3 st (root [8]) = true /\
   length (tree_delta 3 st (root [9], root [8])) = 1%nat.
 Proof. vm_compute. auto. Qed.
+
+(* ---------- commit_tree (Model/TreeBuild.v) ---------- *)
+From DV Require Import TreeBuild TreeBuildP.
+
+(* for every listing in which no path is also a directory of another one, of any
+   depth and width, and every collision-free way of naming trees: looking a path
+   up in the tree commit_tree builds finds exactly what the listing holds for it *)
+Theorem build_then_lookup_is_the_listing : forall (H : list tent -> bytes), (forall a b, H a = H b -> a = b) ->
+  forall L, validb L = true ->
+  let r := commit_tree H (depth L) L in
+  forall q, q <> [] -> look (store_of H (snd r)) (root (fst r)) q = lookupL q L.
+Proof.
+  intros H Hi L V r q NE. destruct (validb_ok L V) as [OK N].
+  apply (commit_tree_lookup H Hi (depth L) L OK); [|exact NE].
+  intros q0 v I. split; [eapply N; eauto|eapply depth_bound; eauto].
+Qed.
+Print Assumptions build_then_lookup_is_the_listing.
+
+(* and flattening it (iter_tree_contents) gives the listing back: build and flatten are inverse *)
+Theorem build_then_flatten_is_the_listing : forall (H : list tent -> bytes), (forall a b, H a = H b -> a = b) ->
+  forall L, validb L = true ->
+  let r := commit_tree H (depth L) L in
+  forall q lf, In (q, lf) (flatten (depth L) (store_of H (snd r)) {| t_name := []; t_mode := 16384; t_id := fst r |}) <-> In (q, lf) L.
+Proof. intros H Hi L V. exact (commit_tree_flatten H Hi L V). Qed.
+Print Assumptions build_then_flatten_is_the_listing.
+
+Example a_listing_in_the_domain :
+  validb [([[97]], (33188, [1])); ([[98]; [99]], (33261, [2])); ([[98]; [100]; [101]], (40960, [3])); ([[98; 46]], (57344, [4]))] = true.
+Proof. vm_compute. reflexivity. Qed.
